@@ -14,6 +14,7 @@
 From Coq Require Import Strings.String.
 From Coq Require Import ZArith List Bool Lia Strings.Byte.
 From YV Require Import Val.Model Tree.Schema Tree.Merge Tree.PathExpr Tree.PathExprProofs Tree.Params Tree.Project Tree.ParamsProofs Tree.Reading Tree.ReadingProofs.
+From YV Require Import Tree.Editor Tree.ExportProofs Tree.ParamsExport Tree.ParamsList Tree.ProjectLaws.
 Import ListNotations.
 Open Scope Z_scope.
 
@@ -230,3 +231,184 @@ Example C07_example :
   read_query ex_kids ex_data [(B "depth", B "zero")] = PErr PBadRequest.
 Proof. repeat split; vm_compute; reflexivity. Qed.
 Print Assumptions C07_example.
+
+(** ** the bridge to the shared export model (C07Check.classify's [bridge], as a theorem)
+
+    The reader without constraints (no constraint object: the empty query) and the shared Editor
+    export into an empty target return the same content, the full read - for every schema whose
+    list rows are containers, without choices, and every well-formed tree (ExportProofs.wfd:
+    shaped like the schema, list keys unique); with upsert or insert.
+    Named _partial because the statement without key uniqueness is false (below). *)
+Theorem C07_unconstrained_read_is_export_partial : forall kids data st,
+  st <> Update ->
+  forallb wf_schema kids = true -> cfree (SCont root_meta kids) = true ->
+  wfd (SCont root_meta kids) (DCont data) = true ->
+  read_content None kids data = POk (full_read kids data) /\
+  edit_content false kids data (empty_content kids) st = Ok (full_read kids data).
+Proof. exact unconstrained_read_is_export. Qed.
+Print Assumptions C07_unconstrained_read_is_export_partial.
+
+(** ... in the words of the check: both return the same content (domain as C07Check's [dom],
+    plus unique keys) *)
+Theorem C07_unconstrained_read_same_result : forall kids data,
+  forallb wf_schema kids = true -> forallb choice_free kids = true ->
+  wfd (SCont root_meta kids) (DCont data) = true ->
+  same_result (read_content None kids data) (edit_content false kids data (empty_content kids) Upsert).
+Proof. exact unconstrained_read_same_result. Qed.
+Print Assumptions C07_unconstrained_read_same_result.
+
+(** the export tree of C04 ([Export.visit]) and the full read of C07 ([Project.fill]) are one tree *)
+Theorem C07_export_is_fill : forall s, cfree s = true -> forall d new, shaped s d = true ->
+  Export.visit new s d = fill new s d.
+Proof. exact visit_is_fill. Qed.
+Print Assumptions C07_export_is_fill.
+
+(** with shaped data only (no key uniqueness) the statement is false: two entries with one key
+    are both delivered by the reader (it appends) and merged by the editor (it looks the key up) *)
+Definition C07_unconstrained_read_is_export_full_statement : Prop :=
+  forall kids data,
+    forallb wf_schema kids = true -> forallb choice_free kids = true ->
+    shaped (SCont root_meta kids) (DCont data) = true ->
+    same_result (read_content None kids data) (edit_content false kids data (empty_content kids) Upsert).
+Theorem C07_unconstrained_read_is_export_full_refuted : ~ C07_unconstrained_read_is_export_full_statement.
+Proof. exact unconstrained_read_is_export_full_refuted. Qed.
+Print Assumptions C07_unconstrained_read_is_export_full_refuted.
+
+(** the hypotheses of the bridge are satisfiable (a keyed list with two entries, a container with
+    defaults below it) *)
+Example C07_bridge_example :
+  forallb wf_schema ok_kids = true /\ forallb choice_free ok_kids = true /\
+  cfree (SCont root_meta ok_kids) = true /\
+  wfd (SCont root_meta ok_kids) (DCont ok_data) = true /\
+  read_content None ok_kids ok_data =
+    POk [Some (DList [DCont [Some (DLeaf (LV (VStr [x31]))); Some (DLeaf (LV (VStr [x61])))];
+                      DCont [Some (DLeaf (LV (VStr [x32]))); None]]);
+         Some (DCont [Some (DLeaf (LV (VStr [x64]))); Some (DCont [Some (DLeaf (LV (VStr [x65])))])])].
+Proof. exact bridge_hypotheses_satisfiable. Qed.
+Print Assumptions C07_bridge_example.
+
+(** ** a LIST as the read target (Tree/ParamsList.v: [read_list] = the reader entered at the list
+    node - the list-pre hook, then every visited entry with the same hooks and counter)
+
+    The read is the projection of the full read of the entries, or Conflict. *)
+Theorem C07_read_list_is_projection : forall P m keys row rows,
+  valid P -> wf_schema (SList m keys row) = true -> forallb (shaped row) rows = true ->
+  read_list P m keys row rows = spec_read_list P row rows.
+Proof. exact read_list_is_projection. Qed.
+Print Assumptions C07_read_list_is_projection.
+
+(** depth=n on a list: every entry, cut n levels below the list (the entries are at the list's own
+    level, their children one level below) *)
+Theorem C07_read_list_depth : forall m keys row rows n,
+  wf_schema (SList m keys row) = true -> forallb (shaped row) rows = true -> 1 <= n ->
+  read_list (Some (mkParams n None None None 10000 None false)) m keys row rows
+  = bounded_rows 10000 (map (project_view (view_depth n) [] row) (full_rows row rows)).
+Proof. exact read_list_depth. Qed.
+Print Assumptions C07_read_list_depth.
+
+(** "nodes at most N levels below the target", in words: whatever the other parameters, the
+    result of a read with depth = N has at most N levels ([levels]) - list target and
+    container target - and depth = N alone drops nothing of a tree with at most N levels *)
+Theorem C07_read_list_depth_bound : forall p m keys row rows r,
+  valid_params p -> wf_schema (SList m keys row) = true -> forallb (shaped row) rows = true ->
+  read_list (Some p) m keys row rows = POk r -> levels (DList r) <= p_depth p.
+Proof. exact read_list_depth_bound. Qed.
+Print Assumptions C07_read_list_depth_bound.
+
+Theorem C07_read_content_depth_bound : forall p kids data c,
+  valid_params p -> forallb wf_schema kids = true -> shaped (SCont root_meta kids) (DCont data) = true ->
+  read_content (Some p) kids data = POk c -> levels (DCont c) <= p_depth p.
+Proof. exact read_content_depth_bound. Qed.
+Print Assumptions C07_read_content_depth_bound.
+
+Theorem C07_depth_keeps : forall n s d fp, shaped s d = true ->
+  levels d <= n - lenZ fp -> project_view (view_depth n) fp s d = d.
+Proof. exact project_depth_keeps. Qed.
+Print Assumptions C07_depth_keeps.
+
+(** satisfiable and not vacuous: list l { key k; container b { leaf y (default "e"); container c
+    { leaf z } } } with three entries, read with depth 1, 2, 3, a range on the target, a bound *)
+Example C07_read_list_example :
+  wf_schema (SList (mk [x6c]) [0%nat] ex_row) = true /\ forallb (shaped ex_row) ex_rows = true /\
+  read_list (depth_only 1) (mk [x6c]) [0%nat] ex_row ex_rows =
+    POk [DCont [sv [x31]; Some (DCont [None; None])]; DCont [sv [x32]; None]; DCont [sv [x33]; Some (DCont [None; None])]] /\
+  read_list (depth_only 2) (mk [x6c]) [0%nat] ex_row ex_rows =
+    POk [DCont [sv [x31]; Some (DCont [sv [x65]; Some (DCont [None])])]; DCont [sv [x32]; None];
+         DCont [sv [x33]; Some (DCont [sv [x38]; None])]] /\
+  read_list (depth_only 3) (mk [x6c]) [0%nat] ex_row ex_rows = read_list None (mk [x6c]) [0%nat] ex_row ex_rows /\
+  read_list (Some (mkParams 64 (Some ([[]], 1, 2)) None None 0 None false)) (mk [x6c]) [0%nat] ex_row ex_rows =
+    POk [DCont [sv [x32]; None]] /\
+  read_list (Some (mkParams 64 None None None 2 None false)) (mk [x6c]) [0%nat] ex_row ex_rows = PErr PConflict.
+Proof. exact read_list_example. Qed.
+Print Assumptions C07_read_list_example.
+
+(** ** laws of the projection (Tree/ProjectLaws.v) *)
+(** projecting twice by one view is projecting once - for views whose row selection commutes with
+    mapping the rows and is idempotent: every parameter record without fc.range or with a range
+    starting at row 0.  Named _partial: for every view the statement is false (below). *)
+Theorem C07_project_idempotent_partial : forall V, rows_natural V -> rows_idem V ->
+  forall s fp d, project_view V fp s (project_view V fp s d) = project_view V fp s d.
+Proof. exact project_idempotent. Qed.
+Print Assumptions C07_project_idempotent_partial.
+
+Theorem C07_params_project_idempotent : forall p, range_from_start p ->
+  forall s fp d, project_view (params_view p) fp s (project_view (params_view p) fp s d)
+                 = project_view (params_view p) fp s d.
+Proof. exact params_project_idempotent. Qed.
+Print Assumptions C07_params_project_idempotent.
+
+Theorem C07_depth_project_idempotent : forall n s fp d,
+  project_view (view_depth n) fp s (project_view (view_depth n) fp s d) = project_view (view_depth n) fp s d.
+Proof. exact depth_project_idempotent. Qed.
+Print Assumptions C07_depth_project_idempotent.
+
+(** fc.range=!1- twice: rows 1- of rows 1- are rows 2- *)
+Definition C07_project_idempotent_full_statement : Prop :=
+  forall V, rows_natural V ->
+  forall s fp d, project_view V fp s (project_view V fp s d) = project_view V fp s d.
+Theorem C07_project_idempotent_full_refuted : ~ C07_project_idempotent_full_statement.
+Proof. exact project_idempotent_full_refuted. Qed.
+Print Assumptions C07_project_idempotent_full_refuted.
+
+(** a view that keeps at most what another keeps (same rows) yields a sub-tree: every node the
+    smaller keeps, the larger keeps ([sub_d]) *)
+Theorem C07_project_monotone : forall W V, view_le W V ->
+  forall s fp d, sub_d (project_view W fp s d) (project_view V fp s d).
+Proof. exact project_monotone. Qed.
+Print Assumptions C07_project_monotone.
+
+Theorem C07_project_depth_monotone : forall n n', n <= n' ->
+  forall s fp d, sub_d (project_view (view_depth n) fp s d) (project_view (view_depth n') fp s d).
+Proof. exact project_depth_monotone. Qed.
+Print Assumptions C07_project_depth_monotone.
+
+Theorem C07_params_depth_monotone : forall p n', p_depth p <= n' ->
+  forall s fp d,
+    sub_d (project_view (params_view p) fp s d)
+          (project_view (params_view (mkParams n' (p_range p) (p_fields p) (p_xfields p) (p_max_node p) (p_content p) (p_trim p))) fp s d).
+Proof. exact params_depth_monotone. Qed.
+Print Assumptions C07_params_depth_monotone.
+
+(** adding a parameter that selects no rows only removes nodes *)
+Theorem C07_project_inter_monotone : forall V W, (forall fp rows, vw_rows W fp rows = rows) ->
+  forall s fp d, sub_d (project_view (inter V W) fp s d) (project_view V fp s d).
+Proof. exact project_inter_monotone. Qed.
+Print Assumptions C07_project_inter_monotone.
+
+(** projecting by the smaller view after the larger is projecting by the smaller *)
+Theorem C07_project_absorb : forall W V, rows_natural W -> rows_idem W -> view_le W V ->
+  forall s fp d, project_view W fp s (project_view V fp s d) = project_view W fp s d.
+Proof. exact project_absorb. Qed.
+Print Assumptions C07_project_absorb.
+
+Example C07_project_laws_example :
+  rows_natural (view_depth 2) /\ rows_idem (view_depth 2) /\ view_le (view_depth 2) (view_depth 3) /\
+  range_from_start (mkParams 2 (Some ([[]], 0, 5)) None None 10000 None true) /\
+  project_view (view_depth 2) [] law_schema law_data
+    = DCont [Some (DCont [Some (DLeaf (LV (VStr [x31]))); Some (DCont [None])])] /\
+  project_view (view_depth 3) [] law_schema law_data = law_data /\
+  project_view (view_depth 1) [] law_schema law_data = DCont [Some (DCont [None; None])] /\
+  sub_d (project_view (view_depth 2) [] law_schema law_data) (project_view (view_depth 3) [] law_schema law_data) /\
+  ~ sub_d (project_view (view_depth 3) [] law_schema law_data) (project_view (view_depth 2) [] law_schema law_data).
+Proof. exact project_laws_example. Qed.
+Print Assumptions C07_project_laws_example.
